@@ -14,7 +14,7 @@ func init() {
 	property("C09",
 		"Static conformance of text handling: (a) the terminator table is {plain: $, ascii: \\0, braille: $} and the terminator is appended exactly when the text does not already end with it, unknown types unchanged; (b) every text value recorded for hoisting or returned for a text statement is the terminator-formatted content with the very string type that is recorded/returned next to it; (c) the string type travels unchanged into ast.Text and selects the directive (default .string), and in the lexer a word directly followed by a quote is a string-type prefix whatever it spells; (d) the parallel text/type maps of a text poryswitch are read with the same key on every path; (e) one directive per line: emitText ranges over all lines of the value split at the same separator the lexer puts between adjacent literals and format() puts after a break. format() hands back the prefix literal iff a prefix was read (C09.c); every return of formatTextTerminator is one of the three documented ones (C09.a); every line gets its directive (C09.e); string literals are spelled by the source (C19.f); every program text is emitted (C10.f).",
 		[]string{"contents of string literals (what the lexer accepts inside quotes) are not decided", "go/ssa lowering is faithful to the source"},
-		"C09.a", "C09.b", "C09.c", "C09.d", "C09.e", "C06.b", "C06.c", "C07.c", "C19.c", "C19.f", "C10.f", "C12.f", "C19.b", "C08.e", "C18.m")
+		"C09.a", "C09.b", "C09.c", "C09.d", "C09.e", "C06.b", "C06.c", "C07.c", "C19.c", "C19.f", "C10.f", "C12.f", "C19.b", "C08.e", "C18.m", "C17.f", "C17.h", "C10.e")
 	property("C10",
 		"Static conformance of command pass-through: (a) every iteration of the argument loop either appends the (constant-substituted) literal of the current token, closes the argument, or takes one inline arm, and then advances by exactly one token; the loop ends at the matching ')' with parenthesis depth counted on '(' / ')', and a non-empty last argument is flushed; (b) a command is rendered as TAB name [SPACE args joined by ', '] NEWLINE from constant formats; (c) statements of a chunk are rendered in order, one render per element; (d) the command name is the token literal, never constant-substituted. Hoisted-argument patching is covered by C06.a/b/c. Emit hands every top-level statement to its emitter and writes the result (C10.f); every non-nil top-level statement is kept (C10.e); the depth counter only counts (C10.a); token literals are source text (C19.f); positions never decide parsing (C16.d).",
 		[]string{"go/ssa lowering is faithful to the source"},
@@ -438,7 +438,12 @@ func c09c(c *Ctx) {
 			nBuilt++
 			v, t, n := tv.f["Value"], tv.f["StringType"], tv.f["Name"]
 			base := strings.TrimSuffix(v, ".Value")
-			if strings.HasSuffix(v, ".Value") && t == base+".StringType" && n == base+".Name.Value" {
+			// ... the element the loop is at (`p.textStatements[i]`), and the scope is that
+			// statement's scope too
+			g := tv.f["IsGlobal"]
+			okScope := g == "" || g == "("+base+`.Scope == "GLOBAL")` || !strings.Contains(g, ".Scope")
+			okElem := strings.Contains(base, "textStatements") && strings.Contains(base, "[phi(")
+			if strings.HasSuffix(v, ".Value") && t == base+".StringType" && n == base+".Name.Value" && okScope && okElem {
 				ok = true
 			} else {
 				// every text built here, not just one of them
@@ -1335,6 +1340,56 @@ func c10e(c *Ctx) {
 			c.Check(!skip, "ParseProgram/every-text-statement-kept", c.W.Pos(st.Pos()), "every explicit text statement becomes a program text", "some text statements do not become program texts (an iteration can reach "+c.nearPos(w)+" without the append): a label that commands refer to would not be defined")
 		}
 		c.Check(nText == 1, "ParseProgram/text-statements-loop", c.W.FuncPos(pp), "one loop turns the explicit text statements into program texts", fmt.Sprintf("found %d appends of explicit text statements to program.Texts, expected 1", nText))
+	}
+	// every text statement that is parsed is registered: no successful return of the text
+	// statement parser is reached without the statement having been put on the parser's list (an
+	// empty text, a text parsed in lint mode … is a text: its label is referred to, and its name
+	// takes part in the clash checks)
+	if pts := c.Fn("parser.Parser.parseTextStatement"); pts != nil {
+		var regs []ssa.Instruction
+		for _, st := range storesToField(pts, "parser", "Parser", "textStatements") {
+			regs = append(regs, st)
+		}
+		isReg := func(in ssa.Instruction) bool {
+			for _, r := range regs {
+				if r == in {
+					return true
+				}
+			}
+			return false
+		}
+		w, skip := existsPath(pathQuery{from: entry(pts), avoid: isReg, edgeOK: notErrorEdge, target: func(in ssa.Instruction) bool {
+			r, ok := in.(*ssa.Return)
+			return ok && isSuccessReturn(r)
+		}})
+		why := ""
+		if skip {
+			why = "parseTextStatement can return successfully (" + c.nearPos(w) + ") without having registered the text statement: the text is never emitted (its label stays undefined) and its name is not checked for clashes"
+		}
+		c.Check(len(regs) > 0 && !skip, "parseTextStatement/every-text-registered", c.W.FuncPos(pts), "every parsed text statement is put on the parser's list", why)
+	}
+	// each statement keyword has its parser: whatever follows the keyword, a token of that kind is
+	// handed to the parser of that statement and to no other (a `break(` treated as a command is
+	// not rejected outside a loop)
+	{
+		own := map[string]string{"BREAK": "parseBreakStatement", "CONTINUE": "parseContinueStatement", "IF": "parseIfStatement", "WHILE": "parseWhileStatement", "DO": "parseDoWhileStatement", "SWITCH": "parseSwitchStatement", "PORYSWITCH": "parsePoryswitchStatement"}
+		n := 0
+		for _, ci := range callsIn(ps) {
+			g := callee(ci)
+			if g == nil || !c.W.InRepo(g) || c.W.PkgShort(g) != "parser" || g.Signature.Recv() == nil || (c.T(ps).purity(g) >= purReadOnly && !strings.HasPrefix(g.Name(), "parse")) {
+				continue
+			}
+			for _, l := range c.mustLits(ps, ci.Block()) {
+				l = verRe.ReplaceAllString(l, "")
+				for k, want := range own {
+					if l == `+($0.curToken.Type == "`+k+`")` {
+						n++
+						c.Check(g.Name() == want, fmt.Sprintf("parseStatement/keyword-has-its-parser/%s@%d", k, c.T(ps).callOrd[ci]), c.W.Pos(ci.Pos()), k+" is parsed by "+want, "a "+k+" token is handed to "+g.Name()+" instead of "+want+": the checks that statement parser makes (scope, position in the block) are skipped")
+					}
+				}
+			}
+		}
+		c.Check(n >= 7, "parseStatement/keyword-has-its-parser", c.W.FuncPos(ps), fmt.Sprintf("%d keyword arms", n), fmt.Sprintf("only %d keyword arms found in parseStatement", n))
 	}
 	ctorCallOK := map[ssa.CallInstruction]bool{}
 	for _, name := range []string{"parser.Parser.parseBlockStatement", "parser.Parser.parseSwitchBlockStatement", "parser.Parser.parsePoryswitchStatements"} {
